@@ -958,6 +958,12 @@ def apply_rules(text, rules, ctx, counts, where):
             text = text.replace(r[1], "")
             counts["strip " + r[1]] = counts.get("strip " + r[1], 0) + k
             continue
+        if isinstance(r, tuple) and r[0] == "cps":
+            # continuation-passing code: call-site normal form (vlib/cps.py); r[1] is the unit's annotation callable
+            from . import cps
+            text, n = cps.cps_normal_form(text, r[1], where)
+            counts["cps"] = counts.get("cps", 0) + n
+            continue
         if isinstance(r, tuple) and r[0] == "consume":
             ctx.consume = list(r[1])
             fn = rule_for_consume
